@@ -112,7 +112,8 @@ Definition fallthrough (c : cls) (it : item) : result (list slot) :=
       | _ => Err ValueError end
   | cUQ =>                                    (* isrot -> r2q ; ishom -> r2q(t2r) ; s.shape[1] == 4 -> [unit(x) for x in s] (fix 21d6c6d) *)
       match dims s with
-      | [_] => Err IndexError
+      | [4] => uq_rows t 1                       (* a 4-vector that is not of unit length is normalised, like the list form (fix d0fc1b2) *)
+      | [_] => Err ValueError
       | [3; 3] => if rot_ok t then Ok [Conv it] else Err ValueError
       | [4; 4] => if hom_ok t then Ok [Conv it]  (* a valid SE(3) matrix: one quaternion from its rotation block *)
                   else uq_rows t 4               (* any other 4x4 array: four quaternion rows (documented N x 4 form) *)
@@ -157,7 +158,7 @@ Definition applicable (c : cls) (it : item) : bool :=
   | cSE2 => if is_sq s 3 then grp_tag true t
             else match dims s with [2] | [2; 1] | [3] => tag_eqb t AltForm | _ => tag_eqb t WrongShape end
   | cUQ => match dims s with
-           | [4] => tag_eqb t Valid || tag_eqb t NotOrtho
+           | [4] => tag_eqb t Valid || tag_eqb t AltForm || tag_eqb t ZeroRow
            | [3; 3] => grp_tag false t
            | [4; 4] => tag_eqb t Valid || tag_eqb t AltForm || tag_eqb t ZeroRow
            | [_; 4] => tag_eqb t AltForm || tag_eqb t ZeroRow
